@@ -363,6 +363,19 @@ def gen_minimize_case(rng, prof: dict | None = None) -> dict:
         "options": {},
         "entry": "minimize",
     }
+    if p.get("vertex_collapse"):
+        # a longer run on a 2-D box whose optimum sits in a vertex with non-zero coordinates: CMA-ES collapses onto the vertex and
+        # its bound repair produces bit-identical points again and again (what a result cache or a de-duplication would merge)
+        b = rng.choice([[1.0, 2.0], [-5.0, 5.0], [0.5, 1.5], [-3.0, -1.0]])
+        desc["box"] = {"cls": "vertex2d", "bounds": [list(b), list(b)]}
+        desc["obj"] = {"fam": "linear", "u": [0.5, 0.5], "w": [rng.choice([-1, 1]) * 1.0, rng.choice([-1, 1]) * 1.25]}
+        desc["maxfun"] = rng.choice([2500, 3000, 3500])
+        desc["maxiter"] = None
+        desc["maxfun_type"] = "int"
+        desc["seed"] = rng.randint(0, 10**6)
+        pop = 14
+        desc["levels"][0]["pop"] = pop
+        desc["gsc"] = {"k": "evals", "n": desc["maxfun"]}
     if p.get("same_callable_two_boxes"):
         # the same objective callable is first minimised over another box (which does not contain this one)
         sh = rng.choice([-0.6, -0.35, 0.35, 0.6])
